@@ -248,6 +248,38 @@ def diag_cases(chk, drv):
             lays3 = {'v_parallel_2d': [0, 2, 1], 'mode_solve': [1, 2, 0]}
             G3 = rand_field(rng, npts[:3], True)
             run_diag_case(chk, drv, P, npts, lays3, eta, G3, ['l2'], 'phi')
+    # a single-precision complex potential (dtype complex64): same norm, to single precision
+    from pygyro.model.layout import getLayoutHandler
+    from pygyro.model.grid import Grid
+    for P in [(1, 1), (2, 1), (1, 2)] + ([(2, 2), (3, 2)] if not chk.quick() else []):
+        npts = npts_for(rng, P)
+        eta = rand_grids(rng, npts)
+        lays3 = {'v_parallel_2d': [0, 2, 1], 'mode_solve': [1, 2, 0]}
+        G3 = rand_field(rng, npts[:3], True).astype(np.complex64)
+        ser, ser_scale = serial_quadrature('l2', eta, G3.astype(complex))
+
+        def body():
+            comm = MPI.COMM_WORLD
+            h = getLayoutHandler(comm, lays3, list(P), eta[:3])
+            out = {}
+            for name in sorted(lays3):
+                g = Grid(eta[:3], [None] * 3, h, name, comm, dtype=np.complex64)
+                L = g.getLayout(name)
+                g.getAllData()[:] = lu.expected_block(G3, L)
+                out[name] = complex(local_objects('l2', eta[:3], L)(g))
+            return out
+        res = lu.run_ranks(int(np.prod(P)), body)
+        case = {'P': list(P), 'npts': list(npts[:3]), 'dtype': 'complex64', 'tag': 'phi single precision'}
+        if not res.ok:
+            chk.fail('C17:diag-crash', 'l2 norm of a complex64 grid raised: ' + str(res.first_error())[:200], case)
+            continue
+        for name in sorted(lays3):
+            tot = sum(o[name] for o in res.values())
+            if abs(tot.imag) > 1e-4 * ser_scale or abs(tot.real - ser) > 1e-4 * ser_scale:
+                chk.fail('C17:sum-l2', 'sum over ranks of the local squared l2 norm of a complex64 field differs from the serial quadrature of |f|^2',
+                         dict(case, layout=name), expected=ser, actual=[tot.real, tot.imag])
+        chk.case(('diag-c64', tuple(P), tuple(npts[:3])), nontrivial=True)
+        chk.count('single-precision complex potential')
     # f == 1 : analytic volume (any grid size), a few process grids
     for P in [(1, 1), (2, 1), (2, 2), (1, 3)] + ([(3, 2), (2, 4)] if not chk.quick() else []):
         npts = npts_for(rng, P)
@@ -460,6 +492,7 @@ def collector_cases(chk, drv):
         saveStep = rng.randint(1, 4)
         dt = rng.choice([1, 2, 3, 5])
         k0 = rng.randint(0, 12)
+        off = rng.choice([0, 0, dt - 1])             # times that are not multiples of dt (a run saved with another time step and resumed)
         steps = list(range(k0, k0 + rng.randint(1, saveStep)))      # fewer than saveStep steps apart: no slot is reused
         Fs = [rand_field(rng, npts, False) for _ in steps]
         Phis = [rand_field(rng, npts[:3], True) for _ in steps]
@@ -478,7 +511,7 @@ def collector_cases(chk, drv):
             for k, F, Ph in zip(steps, Fs, Phis):
                 f.getAllData()[:] = lu.expected_block(F, f.getLayout('v_parallel'))
                 phi.getAllData()[:] = lu.expected_block(Ph, phi.getLayout('v_parallel_2d'))
-                dc.collect(f, phi, k * dt)
+                dc.collect(f, phi, k * dt + off)
             times = dc.diagnostics[0, :].copy()
             for _ in range(n_reduce):
                 dc.reduce()
@@ -486,19 +519,20 @@ def collector_cases(chk, drv):
                     'rows': [np.array(x, dtype=float).tolist() for x in (dc.l2PhiResult, dc.l2GridResult, dc.l1Result, dc.nPartResult,
                                                                          dc.min_val, dc.max_val, dc.KE_val)]}
         res = lu.run_ranks(int(np.prod(P)), body, policy=rng.choice(['inorder', 'reverse', 'random']), seed=it, reduce_order=order)
-        case = {'P': list(P), 'npts': npts, 'saveStep': saveStep, 'dt': dt, 'steps': steps, 'reduce_order': order, 'reduce_calls': n_reduce}
+        case = {'P': list(P), 'npts': npts, 'saveStep': saveStep, 'dt': dt, 'steps': steps, 'time_offset': off, 'reduce_order': order,
+                'reduce_calls': n_reduce}
         if not res.ok:
             chk.fail('C17:collector-crash', 'DiagnosticCollector raised: ' + str(res.first_error())[:200], case)
             continue
         r0 = [o for o in res.values() if o['rank'] == 0][0]
         for k, F, Ph in zip(steps, Fs, Phis):
-            slot = (k * dt // dt) % saveStep                         # oracle: Python integer arithmetic
-            mo = drv.call({'op': 'slot', 't': {'int': k * dt}, 'dt': {'int': dt}, 'saveStep': saveStep})
+            slot = ((k * dt + off) // dt) % saveStep                 # oracle: Python integer arithmetic
+            mo = drv.call({'op': 'slot', 't': {'int': k * dt + off}, 'dt': {'int': dt}, 'saveStep': saveStep})
             if mo['slot'] != slot:
                 chk.diff('model slot', dict(case, k=k), mo['slot'], slot)
-            if r0['times'][slot] != k * dt:
+            if r0['times'][slot] != k * dt + off:
                 chk.fail('C17:slot', 'collect() did not write step k to slot (t//dt) % saveStep', dict(case, k=k),
-                         expected={'slot': slot, 't': k * dt}, actual=r0['times'])
+                         expected={'slot': slot, 't': k * dt + off}, actual=r0['times'])
                 continue
             exp = []
             l2p, sp = serial_quadrature('l2', eta, Ph)
